@@ -449,7 +449,7 @@ class Parser:
         out = [defs.ActionToken(tok.pos)]
         name = self.get_environment_name(buf, tok)
         if name not in self.the_environments:
-            if not (math or name in self.unknowns):
+            if name and not (math or name in self.unknowns):
                 self.unknowns.append(name)
             return out
         env = self.the_environments[name]
